@@ -47,7 +47,8 @@ extern "C" void sym_body()
     const long          reg   = cfgi("reg", 0);
     symsource_t         src(kinds, n, static_cast<long>(kinds.size()) - 1, static_cast<int>(cfgi("miss", 0)));
     src.load();
-    dataset_t ds(src, 1);
+    // threads=<K>;sched=<0 rr|1 last|2 reversed|3 arbitrary>: sequentialised multi-worker pool (any assignment of chunks to workers)
+    dataset_t ds(src, setup_workers(cfgi("threads", 1), cfgi("sched", 0)));
     add_identity_generators(ds);
     const auto samples = all_samples(n);
 
